@@ -244,6 +244,7 @@ def run(seed):
                 child = rnd.choice(kids)
                 cm = table[id(child.expr)]
                 twin = len([x for x in m.contents if (x if isinstance(x, str) else x.ser()) == cm.ser()]) > 1
+                twin_seen = twin_seen or twin
                 node.remove(child)
                 m.contents.remove(cm)
             elif op == 'rename':
@@ -285,12 +286,14 @@ def run(seed):
                 g.parent = m
                 m.args.append(g)
         except Exception as e:
-            return [(finding_class(op, twin, inserted) or 'edit-raises',
+            return [(finding_class(op, twin or twin_seen, inserted) or 'edit-raises',
                      'document %r: %s raised %s: %s' % (s, desc, type(e).__name__, str(e)[:60]))]
         hist.append(desc)
         got, want = str(soup), root.ser()
         if got != want:
-            return [(finding_class(op, twin, inserted and op not in ('replace', 'insert', 'append')) or 'edit-not-local',
+            # (an earlier step that acted on a textual twin may have removed another object than the model did:
+            # every later difference in this history is the same finding D9)
+            return [(finding_class(op, twin or twin_seen, inserted and op not in ('replace', 'insert', 'append')) or 'edit-not-local',
                      'document %r after %s: text is %r, the reference model gives %r' % (s, '; '.join(hist), got, want))]
         if PROP == 'C14' and op in ('rename', 'string', 'args-slice', 'args-reverse', 'args-append'):
             try:
@@ -305,7 +308,7 @@ def run(seed):
         if PROP == 'C15':
             c = consistent(soup, root)
             if c:
-                return [(finding_class(op, False, inserted) or 'views-inconsistent',
+                return [(finding_class(op, twin_seen, inserted) or 'views-inconsistent',
                          'document %r after %s: %s' % (s, '; '.join(hist), c))]
     return []
 
